@@ -107,6 +107,58 @@ def merge_map(spec):
     return mm, nan_idx
 
 
+def cluster_waveforms_expected(spec):
+    """Stored (whitened) cluster waveforms of a curated dataset from the files alone, with a mask of the
+    clusters for which the definition gives ONE answer (no spike-count tie between its templates, no
+    distance tie in the channel neighbourhoods involved). Returns (n_clusters, n_samples, n_channels), mask."""
+    T = spec.templates.astype(np.float64)
+    nt, nsw, nc = T.shape
+    sc = spec.clusters.astype(np.int64)
+    st = spec.spike_templates.astype(np.int64)
+    mm, _ = merge_map(spec)
+    thr = spec.notes.get('amplitude_threshold') or 0
+    ncl = spec.notes.get('n_closest_channels') or 12
+    out = np.zeros((len(mm), nsw, nc))
+    sure = np.ones(len(mm), bool)
+    sets = {}
+    for c, ts in mm.items():
+        if not ts:
+            continue
+        if len(ts) == 1:
+            out[c] = T[ts[0]]
+            continue
+        cnt = np.array([(st[sc == c] == t).sum() for t in ts], dtype=np.float64)
+        acc = np.zeros((nsw, nc))
+        for t, n_ in zip(ts, cnt):
+            if t not in sets:
+                sets[t] = dense_channel_sets(spec, spec.templates[t], thr, ncl)
+            best, req, allowed = sets[t]
+            if req != allowed:
+                sure[c] = False
+            own = sorted(allowed)
+            acc[:, own] += n_ * T[t][:, own]
+        acc /= cnt.sum()
+        if (cnt == cnt.max()).sum() > 1:
+            sure[c] = False
+        dom = ts[int(np.argmax(cnt))]
+        own = sorted(sets[dom][2])
+        out[c][:, own] = acc[:, own]
+    return out, sure
+
+
+def clear_argmax(v, rel=1e-4):
+    """argmax of v if the runner-up is clearly smaller, else None."""
+    v = np.asarray(v, dtype=np.float64)
+    if not np.isfinite(v).all() or v.size == 0:
+        return None
+    i = int(np.argmax(v))
+    if v.size > 1:
+        second = np.partition(v, -2)[-2]
+        if v[i] - second <= rel * max(abs(v[i]), 1e-300):
+            return None
+    return i
+
+
 # ---- C09 / C14 ---------------------------------------------------------------------------------------
 
 def amps_true(data, wmi, spikes, amps, factor=1.):
